@@ -23,13 +23,13 @@ RULE_SEQ = ("one evaluation = one seeded plan (swarm configuration + operation l
             "non-trivial = the run reached a container state with >= 2 elements (or the world's stated equivalent)")
 
 check("C12", "exploration",
-      [dict(world="lists", mode=12, variants=V_SEQ, quick=80000, thorough=8000000),
+      [dict(world="lists", mode=12, variants=V_SEQ, quick=80000, thorough=4000000),
        dict(world="lists", mode=112, variants={"rel": 1.0}, quick=12, thorough=400)],
       RULE_SEQ, ["src/dlist.c", "include/cstl/dlist.h"],
       required_probes=["d_reverse_len0to5", "d_reverse_odd", "d_reverse_even", "d_swap_with_empty", "d_foreach_self_remove",
                        "d_foreach_cancel", "d_concat_empty_src", "d_concat_empty_dst", "d_pop_empty", "d_find_absent", "d_swap_different_offsets", "comparator_reenters_library", "huge_sort", "huge_sort_2^20"])
 check("C13", "exploration",
-      [dict(world="lists", mode=13, variants=V_SEQ, quick=80000, thorough=8000000),
+      [dict(world="lists", mode=13, variants=V_SEQ, quick=80000, thorough=4000000),
        dict(world="lists", mode=113, variants={"rel": 1.0}, quick=12, thorough=400)],
       RULE_SEQ, ["src/slist.c", "include/cstl/slist.h"],
       required_probes=["s_pop_empty", "s_erase_last", "s_insert_after_tail", "s_swap_with_empty", "s_concat_empty_src",
@@ -80,7 +80,7 @@ check("C02", "exploration",
       required_probes=["insert_hinted", "erase_leaf", "erase_one_child", "erase_two_children_succ_is_child",
                        "erase_two_children_succ_deeper", "erase_root"])
 check("C07", "exploration",
-      [dict(world="heap", mode=7, variants=V_TREES, quick=60000, thorough=6000000)],
+      [dict(world="heap", mode=7, variants=V_TREES, quick=60000, thorough=4000000)],
       RULE_SEQ, ["src/heap.c", "src/common.c", "src/bintree.c", "include/cstl/heap.h"],
       required_probes=["push_to_2^k", "pop_from_2^k", "pop_empty", "swap", "heap_reached_256"])
 
@@ -113,25 +113,25 @@ RULE_HASH = ("one evaluation = one seeded plan (1-2 tables; resize requests foll
              "hash.c with the reference model checked after every operation and a non-perturbing checkpoint/lookup-everything/restore audit; "
              "distinct = distinct plan hash; non-trivial = the run held >= 2 live elements at some point")
 check("C03", "exploration",
-      [dict(world="hash", mode=3, variants=V_HASH, quick=80000, thorough=8000000)],
+      [dict(world="hash", mode=3, variants=V_HASH, quick=80000, thorough=2400000)],
       RULE_HASH, ["src/hash.c", "include/cstl/hash.h"], stubs=HASH_STUBS,
       required_probes=["insert_mid_rehash", "find_mid_rehash", "erase_mid_rehash", "resize_while_pending", "resize_grow", "resize_shrink",
                        "resize_same_size_new_fn", "resize_back_while_pending", "resize_alloc_fail_fired", "resize_enomem", "forced_rehash_while_pending",
                        "shrink_reallocated", "swap", "find_accept_jth", "find_reject_all_dupes", "erase_previously_erased", "erase_never_inserted", "audit_full"])
 check("C04", "exploration",
-      [dict(world="hash", mode=4, variants=V_HASH, quick=80000, thorough=8000000)],
+      [dict(world="hash", mode=4, variants=V_HASH, quick=80000, thorough=2400000)],
       RULE_HASH, ["src/hash.c", "include/cstl/hash.h"], stubs=HASH_STUBS,
       required_probes=["foreach_mid_rehash", "foreach_grow_pending", "foreach_const_mid_rehash", "foreach_const_grow_pending", "clear_mid_rehash",
                        "clear_grow_pending", "foreach_erase_and_free", "foreach_cancel", "foreach_const_cancel", "reuse_after_clear", "clear"])
 check("C19", "exploration",
-      [dict(world="hash", mode=19, variants=V_HASH, quick=80000, thorough=8000000)],
+      [dict(world="hash", mode=19, variants=V_HASH, quick=80000, thorough=1500000)],
       RULE_HASH, ["src/hash.c", "include/cstl/hash.h"], stubs=HASH_STUBS,
       required_probes=["resize_while_pending", "resize_grow", "resize_shrink", "resize_same_size_new_fn", "resize_back_while_pending",
                        "c19_rehash_completed_by_keyed_ops"],
       assumptions=["completion and 'pending' are observed black-box through the number of hash-function consultations of one lookup under checkpoint/restore",
                    "the three-buckets-per-operation clause is checked through a call-count bound (8 + 6*(longest chain+1)), not by identifying source buckets"])
 check("C17", "fault_enumeration",
-      [dict(world="hash", mode=17, variants={"rel": 0.5, "asan": 0.5}, quick=60000, thorough=4000000)],
+      [dict(world="hash", mode=17, variants={"rel": 0.5, "asan": 0.5}, quick=60000, thorough=1300000)],
       RULE_HASH + "; in this mode a fault 'the caller's hash function returns m, m+1 or SIZE_MAX on its j-th call within this operation' rides on a fraction of the operations",
       ["src/hash.c", "include/cstl/hash.h"], stubs=HASH_STUBS,
       required_probes=["c17_bad_value_consumed", "c17_bad_at_call_1", "c17_bad_at_call_2", "c17_bad_at_call_3plus", "c17_range_samples"],
@@ -168,7 +168,7 @@ mtext("C17",
       "DESIGN.md 4.C17")
 
 check("C08", "exploration",
-      [dict(world="map", mode=8, variants={"rel": 0.8, "asan": 0.2}, quick=60000, thorough=6000000)],
+      [dict(world="map", mode=8, variants={"rel": 0.8, "asan": 0.2}, quick=60000, thorough=3600000)],
       RULE_SEQ + "; a quarter of the runs attach an allocation failure to some inserts",
       ["src/map.c", "src/rbtree.c", "src/bintree.c", "include/cstl/map.h"],
       required_probes=["insert_new", "insert_existing", "alloc_fail_fired", "erase_present", "erase_absent", "erase_iterator", "find_present", "find_absent", "map_clear", "comparator_consults_another_map"])
@@ -185,7 +185,7 @@ ALLOC_STUBS = ["realloc placement policy (always move / in place when shrinking 
 RULE_ALLOC = ("one evaluation = one seeded plan executed against the real library with the reference model and the sim-heap block table (128-bit size arithmetic) checked after every operation; "
               "allocator faults ride on the operation they hit; at most one abort-provoking operation per run, placed last; distinct = distinct plan hash; non-trivial = the container held >= 2 elements at some point")
 check("C09", "exploration",
-      [dict(world="vector", mode=9, variants=V_ALLOC, quick=80000, thorough=8000000)],
+      [dict(world="vector", mode=9, variants=V_ALLOC, quick=80000, thorough=1500000)],
       RULE_ALLOC, ["src/vector.c", "include/cstl/vector.h", "src/array.c (sort/reverse)"], stubs=ALLOC_STUBS,
       required_probes=["alloc_fail_fired", "enomem_over_budget", "byte_count_unrepresentable", "realloc_moved", "realloc_inplace", "reserve_unsatisfied",
                        "resize_must_abort", "at_out_of_range", "growth_from_null", "shrink_to_zero", "swap", "sort", "reverse", "clear"])
@@ -230,7 +230,7 @@ mtext("C14",
       "DESIGN.md 4.C14")
 
 check("C05", "exploration",
-      [dict(world="mem", mode=5, variants={"rel": 0.8, "asan": 0.2}, quick=100000, thorough=10000000)],
+      [dict(world="mem", mode=5, variants={"rel": 0.8, "asan": 0.2}, quick=100000, thorough=4000000)],
       "one evaluation = one seeded history over 4 shared, 3 weak, 3 unique and 2 guarded pointer objects and up to 3 live allocations (each with its own callback identity, private pointer and tag byte), "
       "with the clear-callback log and the sim heap's allocation events compared with the ownership model after every operation; distinct = distinct plan hash; non-trivial = at least two allocations were made",
       ["src/memory.c", "include/cstl/memory.h"],
@@ -267,7 +267,7 @@ mtext("C06",
       "DESIGN.md 4.C06")
 
 check("C11", "exploration",
-      [dict(world="sort", mode=11, variants={"rel": 0.7, "asan": 0.3}, quick=60000, thorough=6000000)],
+      [dict(world="sort", mode=11, variants={"rel": 0.7, "asan": 0.3}, quick=60000, thorough=5000000)],
       "one evaluation = one seeded plan: 1-3 rounds of {fill a raw array (patterns: random over 1..3000 values, sorted, reversed, constant, two-valued, organ-pipe, saw-tooth; lengths 0..8 / 0..64 / 0..4096), linear finds, optional reverse, "
       "1-2 sorts with a seeded selector (four named algorithms and four out-of-range values) and either cstl_swap or a checking swap callback, binary searches and finds on the result}; rand() is the simulator's (uniform, or bounded adversarial streaks of pivot-last values); "
       "distinct = distinct plan hash; non-trivial = the last array had >= 2 elements",
@@ -287,10 +287,10 @@ mtext("C11",
 
 V_C15 = {"asan": 0.5, "rel": 0.4, "dbg": 0.1}
 check("C15", "exploration",
-      [dict(world="trees", mode=15, variants=V_C15, quick=30000, thorough=3000000),
-       dict(world="heap", mode=15, variants=V_C15, quick=30000, thorough=3000000),
-       dict(world="lists", mode=15, variants=V_C15, quick=30000, thorough=3000000),
-       dict(world="map", mode=15, variants={"asan": 0.5, "rel": 0.5}, quick=30000, thorough=3000000)],
+      [dict(world="trees", mode=15, variants=V_C15, quick=30000, thorough=1000000),
+       dict(world="heap", mode=15, variants=V_C15, quick=30000, thorough=1000000),
+       dict(world="lists", mode=15, variants=V_C15, quick=30000, thorough=1000000),
+       dict(world="map", mode=15, variants={"asan": 0.5, "rel": 0.5}, quick=30000, thorough=1000000)],
       "one evaluation = one seeded history in which clear is frequent and its callback counts per element, overwrites the whole element with 0xDD and frees it to the sim heap (poisoned, quarantined; really freed under ASan), "
       "followed by a refill of the same container and ordinary operations with the world's full audit; container states at the moment of clear come from the preceding seeded history; distinct = distinct plan hash; non-trivial as in the world",
       ["src/bintree.c (clear)", "src/dlist.c", "src/slist.c", "src/map.c", "include/cstl/rbtree.h", "include/cstl/heap.h"],
@@ -306,13 +306,13 @@ mtext("C15",
 
 V_C16 = {"rel": 0.7, "asan": 0.3}
 check("C16", "fault_enumeration",
-      [dict(world="map", mode=16, variants=V_C16, quick=500, thorough=20000),
-       dict(world="vector", mode=16, variants=V_C16, quick=500, thorough=20000),
-       dict(world="string", mode=16, variants=V_C16, quick=500, thorough=20000),
-       dict(world="hash", mode=16, variants=V_C16, quick=500, thorough=20000),
-       dict(world="mem", mode=16, variants=V_C16, quick=500, thorough=20000),
-       dict(world="array", mode=16, variants=V_C16, quick=500, thorough=20000)],
-      "for each seeded script (500 per world quick, 20000 thorough; no other faults): a fault-free dry run counts the library's allocation calls N, then the script is re-executed with EVERY single ordinal 1..N failing, EVERY suffix 'from k on everything fails', "
+      [dict(world="map", mode=16, variants=V_C16, quick=500, thorough=60000),
+       dict(world="vector", mode=16, variants=V_C16, quick=500, thorough=60000),
+       dict(world="string", mode=16, variants=V_C16, quick=500, thorough=60000),
+       dict(world="hash", mode=16, variants=V_C16, quick=500, thorough=60000),
+       dict(world="mem", mode=16, variants=V_C16, quick=500, thorough=60000),
+       dict(world="array", mode=16, variants=V_C16, quick=500, thorough=60000)],
+      "for each seeded script (500 per world quick, 60000 thorough; no other faults): a fault-free dry run counts the library's allocation calls N, then the script is re-executed with EVERY single ordinal 1..N failing, EVERY suffix 'from k on everything fails', "
       "EVERY pair (N <= 40, 400 seeded pairs above) and EVERY triple (N <= 12); each faulted execution runs to the end of the script (continued use after the failure) under the world's normal oracle, whose model predicts the documented failure mode from the allocator's own answer; "
       "evaluations = scripts + faulted executions; distinct = distinct scripts (plan hash); the placement space per script is enumerated, the scripts are sampled",
       ["src/map.c", "src/vector.c", "src/_string.c", "src/hash.c", "src/memory.c", "src/array.c"],
